@@ -70,7 +70,7 @@ Theorem C20_map_order_irrelevant_sortMap : forall (cs : list change) (m : deps_t
 Proof. exact sortMap_perm. Qed.
 Print Assumptions C20_map_order_irrelevant_sortMap.
 Example C20_sortMap_ex :
-  let t n := mkT n n in
+  let t n := mkT n 0 n in
   let cs := [AddTable (t 1) [mkFK 0 (t 1) (t 2)]; AddTable (t 3) [mkFK 1 (t 3) (t 1)]; AddTable (t 2) []] in
   dependencies cs = [(1, [2]); (3, [1])]
   /\ sortMap_over [(3, [1]); (1, [2])] = SMOk [2; 1; 3] /\ sortMap cs = SMOk [2; 1; 3].
@@ -82,7 +82,7 @@ Theorem C20_map_order_irrelevant_DetachCycles : forall (cs : list change) (m : d
 Proof. exact DetachCycles_over_perm. Qed.
 Print Assumptions C20_map_order_irrelevant_DetachCycles.
 Example C20_DetachCycles_ex :
-  let t n := mkT n n in
+  let t n := mkT n 0 n in
   let a := AddTable (t 1) [mkFK 0 (t 1) (t 2)] in
   let b := AddTable (t 3) [mkFK 1 (t 3) (t 1)] in
   let c := AddTable (t 2) [] in
@@ -386,7 +386,7 @@ Proof.
 Qed.
 Print Assumptions C20_decl_order_cycle_detection.
 Example C20_decl_order_cycle_ex :
-  let t n := mkT n n in
+  let t n := mkT n 0 n in
   let a := AddTable (t 1) [mkFK 0 (t 1) (t 2)] in
   let b := AddTable (t 2) [mkFK 1 (t 2) (t 1)] in
   sortMap [a; b] = SMCycle /\ sortMap [b; a] = SMCycle /\ sortMap [a; AddTable (t 2) []] = SMOk [2; 1].
@@ -405,7 +405,7 @@ Theorem C20_decl_order_partial : forall cs cs' : list change,
 Proof. exact DetachCycles_decl_order_full. Qed.
 Print Assumptions C20_decl_order_partial.
 Example C20_decl_order_ex :
-  let t n := mkT n n in
+  let t n := mkT n 0 n in
   let a := AddTable (t 1) [mkFK 0 (t 1) (t 2)] in
   let b := AddTable (t 2) [] in
   DetachCycles [a; b] = DCOk [b; a] /\ DetachCycles [b; a] = DCOk [b; a].
